@@ -9,6 +9,8 @@ import NeoModel.Proofs.CodecBigInt
 import NeoModel.Proofs.CodecUint
 import NeoModel.Proofs.CodecBase58
 import NeoModel.Proofs.CodecScript
+import NeoModel.Proofs.CodecFixed
+import NeoModel.Proofs.CodecMsScript
 namespace NeoModel.Codec
 variable {Sig Key : Type}
 
@@ -190,5 +192,51 @@ theorem emit_int_pushes (i : Int) (hr : -(2:Int)^63 ≤ i ∧ i < (2:Int)^63) :
 
 example : emitInt 16 = some [0x00, 0x10] ∧ emitInt 15 = some [0x1f] ∧ emitInt (-1) = some [0x0f]
     ∧ emitInt 128 = some [0x01, 0x80, 0x00] ∧ pushedInt [0x01, 0x80, 0x00] = some 128 := by decide
+
+/-! ## fixed-point decimals (pkg/encoding/fixedn) -/
+
+/-- C18 (Fixed8): every int64 value, printed by `Fixed8.String` and parsed by
+`Fixed8FromString`, comes back exactly (negative fractions below one and both int64 edges included). -/
+theorem fixed8_roundtrip (v : Int) (hr : -(2:Int)^63 ≤ v ∧ v < (2:Int)^63) :
+    fixed8FromString (fixed8String v) = some v := fixed8_parse_print v hr
+
+example : fixed8FromString (fixed8String (-50000000)) = some (-50000000) := fixed8_roundtrip _ (by decide)
+example : fixed8FromString (fixed8String (-(2:Int)^63)) = some (-(2:Int)^63) := fixed8_roundtrip _ (by decide)
+
+/-- C18 (decimals): for every integer and every precision (no bound), `FromString (ToString bi p) p = bi`. -/
+theorem decimal_roundtrip (bi : Int) (p : Nat) : decFromString (decToString bi p) p = some bi :=
+  dec_parse_print bi p
+
+example : decFromString (decToString (-5) 1) 1 = some (-5) := decimal_roundtrip _ _
+example : decFromString (decToString ((2:Int)^64) 20) 20 = some ((2:Int)^64) := decimal_roundtrip _ _
+
+/-- C18 (decimals): text with more fraction digits than the precision is rejected. -/
+theorem decimal_too_many_digits_rejected (P0 p1 : Bytes) (p : Nat) (z : Int)
+    (hnd : ∀ c ∈ P0, (c == chDot) = false) (hz : parseInt10 P0 = some z) (hl : p < p1.length) :
+    decFromString (P0 ++ chDot :: p1) p = none := decFromString_too_long P0 p1 p z hnd hz hl
+
+example : decFromString ([49] ++ chDot :: [49, 50, 51]) 2 = none :=   -- "1.123" with precision 2
+  decimal_too_many_digits_rejected [49] [49, 50, 51] 2 1 (by decide) (by decide) (by decide)
+
+/-! ## standard contracts: builders and their parsers -/
+
+/-- C18 (scripts): `ParseMultiSigContract (CreateMultiSigRedeemScript m keys) = (m, keys)` for every
+`1 ≤ m ≤ n ≤ 1024` and 33-byte keys (in the order the builder emits them). -/
+theorem multisig_script_parse_build (m : Nat) (keys : List Bytes) (h1 : 1 ≤ m) (h2 : m ≤ keys.length)
+    (h3 : keys.length ≤ 1024) (hk : ∀ k ∈ keys, k.length = 33) :
+    ∃ s, createMultiSig (m : Int) keys = some s ∧ parseMultiSig s = some (m, keys) :=
+  parse_build m keys h1 h2 h3 hk
+
+/-- C18 (scripts): `ParseSignatureContract (GetVerificationScript key) = key`. -/
+theorem sig_script_parse_build (key : Bytes) (hk : key.length = 33) :
+    parseSigContract (sigScript key) = some key := parseSig_build key hk
+
+-- non-vacuity: 2-of-3 …
+example : ∃ s, createMultiSig 2 [List.replicate 33 1, List.replicate 33 2, List.replicate 33 3] = some s ∧
+    parseMultiSig s = some (2, [List.replicate 33 1, List.replicate 33 2, List.replicate 33 3]) :=
+  multisig_script_parse_build 2 _ (by decide) (by decide) (by decide) (by intro k hk; simp at hk; rcases hk with h | h | h <;> subst h <;> rfl)
+-- … and the builder's guards
+example : createMultiSig 0 [List.replicate 33 1] = none ∧ createMultiSig 2 [List.replicate 33 1] = none := by
+  constructor <;> simp [createMultiSig]
 
 end NeoModel.Codec
